@@ -60,6 +60,9 @@ func checkC04(args []string) {
 		if i%9 == 0 {
 			force = "high-q"
 		}
+		if i%9 == 4 {
+			force = "ilimit-edges"
+		}
 		g := genVP8Frame(rng, run.Pick(3, 4), run.Pick(2, 3), force)
 		id := fmt.Sprintf("v%d", i)
 		gens[id] = g
@@ -150,6 +153,52 @@ func checkC04(args []string) {
 		vx.Fatal2("Vp8Gen produced no frame")
 	}
 	run.Cov["frames_from_the_tla_writer"] = nWr
+	// large frames (beyond what TLC decodes): token partitions of more than 64 KiB, whose sizes need all three bytes
+	// of the partition table. Splitting the token data into 2, 4 or 8 partitions does not change a single coefficient,
+	// so each file must decode to exactly the planes of the one-partition file of the same picture.
+	{
+		big := noiseNRGBA(rng, 384, 384, 0)
+		var refY, refU, refV []int
+		for _, parts := range []int{0, 1, 2, 3} {
+			o := *webp.DefaultOptions()
+			o.Quality, o.Method, o.Partitions = 100, 2, parts
+			name := fmt.Sprintf("384x384 noise lossy q100 m2, %d token partitions", 1<<uint(parts))
+			out, err, pan := safeEncode(big, &o)
+			if err != nil || pan != nil {
+				vx.Fatal2("C04 large-partition stage: encode fails: %v %v", err, pan)
+			}
+			pl := findChunk(out, "VP8 ")
+			p0 := (int(pl[0]) | int(pl[1])<<8 | int(pl[2])<<16) >> 5
+			largest := 0
+			for k := 0; k+1 < 1<<uint(parts); k++ {
+				tb := pl[10+p0+3*k:]
+				if sz := int(tb[0]) | int(tb[1])<<8 | int(tb[2])<<16; sz > largest {
+					largest = sz
+				}
+			}
+			run.Eval(name)
+			im, derr := guardedDecode(out)
+			if derr != nil {
+				run.Violate("large-partitions|decode-fails", fmt.Sprintf("%s (largest table entry %d bytes): %v", name, largest, derr), name)
+				continue
+			}
+			y, u, v, ok := ycbcrPlanes(im)
+			if !ok {
+				run.Violate("large-partitions|type", fmt.Sprintf("%s: decoded to %T", name, im), name)
+				continue
+			}
+			if parts == 0 {
+				refY, refU, refV = y, u, v
+				continue
+			}
+			if !intsEqual(y, refY) || !intsEqual(u, refU) || !intsEqual(v, refV) {
+				run.Violate("large-partitions|planes", fmt.Sprintf("%s (largest table entry %d bytes): decodes to other planes than the one-partition file", name, largest), name)
+			}
+			if parts == 1 {
+				run.Cov["largest_partition_table_entry_bytes"] = largest
+			}
+		}
+	}
 	// libwebp fixtures against libwebp's reference planes
 	var fixLines []vp8Line
 	for _, f := range lossyFixtures() {
